@@ -188,11 +188,20 @@ fn plain(e: &Entry) -> String {
 }
 
 fn fields_of(m: &SourceMap) -> Fields {
+  // the lists are read through the indexed getters and cross-checked with the slice getters (a
+  // disagreement shows up as an extra marker entry, which no expected value contains)
+  fn via_index<'a>(slice: &'a [String], get: impl Fn(usize) -> Option<&'a str>) -> Vec<String> {
+    let mut v: Vec<String> = (0..).map_while(|i| get(i)).map(|s| s.to_string()).collect();
+    if v != slice || get(slice.len()).is_some() || get(usize::MAX).is_some() {
+      v.push("<indexed getter disagrees with the slice getter>".into());
+    }
+    v
+  }
   Fields {
     mappings: m.mappings().to_string(),
-    sources: m.sources().to_vec(),
-    contents: m.sources_content().to_vec(),
-    names: m.names().to_vec(),
+    sources: via_index(m.sources(), |i| m.get_source(i)),
+    contents: via_index(m.sources_content(), |i| m.get_source_content(i)),
+    names: via_index(m.names(), |i| m.get_name(i)),
     file: m.file().map(|s| s.to_string()),
     root: m.source_root().map(|s| s.to_string()),
     debug_id: m.get_debug_id().map(|s| s.to_string()),
